@@ -84,7 +84,7 @@ def debug (d : T) (s : Slice) : Option (List Nat) :=
   if s.length < Gen.sliceDebugLimit then toDnaString d s
   else some (s!"start: {s.start}, len: {s.length}, is_rc: {s.isRc}".toList.map Char.toNat)
 
-def kmer32 : Cfg := ⟨64, 32, false⟩
+abbrev kmer32 : Cfg := ⟨64, 32, false⟩
 
 /-- one whole 32-base block of `hamming_dist`: `get_kmer::<Kmer32>` on both views, `count_diff_2_bit_packed` -/
 def hamBlockStep (d1 : T) (s1 : Slice) (d2 : T) (s2 : Slice) (acc : Option Nat) (blk : Nat) : Option Nat :=
